@@ -1,6 +1,8 @@
 package props
 
 import (
+	"archive/zip"
+	"bytes"
 	"fmt"
 	"os"
 	"strings"
@@ -81,7 +83,13 @@ func (c03) Gen(r *sim.Rand, c *sim.Case, tier string) {
 	}
 	n := r.Range(1, 4)
 	for i := 0; i < n; i++ {
-		ops = append(ops, sim.Op{K: "c3.cycle", I: []int{r.Intn(2), r.Intn(3)}})
+		cyc := sim.Op{K: "c3.cycle", I: []int{r.Intn(2), r.Intn(3), 0, 0, 0}}
+		if r.Chance(0.5) {
+			// storage fault on the saved bytes before they are opened (a copy; the cycle itself continues from the intact bytes):
+			// kind, entry selector, position inside the entry's data
+			cyc.I[2], cyc.I[3], cyc.I[4] = 1+r.Intn(3), r.Intn(1000), r.Intn(100000)
+		}
+		ops = append(ops, cyc)
 	}
 	c.Tasks = [][]sim.Op{ops}
 	c.Order = orderPolicy(r)
@@ -311,12 +319,101 @@ func (c03) Exec(c *sim.Case, env *Env) []sim.Violation {
 				add("cycle-not-stable", sg, fmt.Sprintf("cycle %d changed the package again: %s", cycle, det))
 			}
 		}
+		// (6) storage fault between save and open: the data of one entry of the saved file is damaged at rest. Every entry carries a
+		// checksum, so the open either fails or - when the damage happens not to change the content - yields the same document;
+		// it never succeeds with other content ("may fail, never returns wrong data").
+		if op.Int(2) > 0 {
+			if damaged, what := damageEntryData(prev, op.Int(2), op.Int(3), op.Int(4)); damaged != nil {
+				env.Stats.Fault(what)
+				var d4 *document.Document
+				var e4 error
+				var b4 []byte
+				if sig, pn := Guard(func() {
+					d4, e4 = w.OpenBytes(damaged, op.Int(1))
+					if e4 == nil && d4 != nil {
+						b4, e4 = d4.ToBytes()
+					}
+				}); pn {
+					add("panic", sig, "Open panicked on a damaged copy of a package the library wrote")
+				} else if e4 != nil || d4 == nil {
+					env.Stats.Probe("damage_detected")
+				} else if c4, err := CanonPackage(b4); err != nil {
+					add("damaged-data-accepted", "resave-unreadable", fmt.Sprintf("cycle %d, %s: Open accepted the damaged file and the document saves to an unreadable package: %v", cycle, what, err))
+				} else if sg, det := PkgDiff(nextC, c4); sg != "" {
+					add("damaged-data-accepted", normSigPart(sg), fmt.Sprintf("cycle %d, %s: Open accepted the damaged file and returned other content than the intact file holds: %s", cycle, what, det))
+				} else {
+					env.Stats.Probe("damage_harmless")
+				}
+			}
+		}
 		env.Stats.Probe("cycles_completed")
 		env.Log.Event("cycle %d via=%d/%d -> %s", cycle, op.Int(0), op.Int(1), inspectHashLines(nextC.Summary()))
 		prev, prevC = next, nextC
 		cycle++
 	}
 	return viol
+}
+
+// damageEntryData returns a copy of a ZIP file with damage inside the (compressed) data of one entry - the region its checksum
+// covers - and a name for the fault kind; nil if there is no such region.
+func damageEntryData(b []byte, kind, sel, pos int) ([]byte, string) {
+	zr, err := zip.NewReader(bytes.NewReader(b), int64(len(b)))
+	if err != nil {
+		return nil, ""
+	}
+	type span struct{ off, n int64 }
+	var spans []span
+	for _, f := range zr.File {
+		off, err := f.DataOffset()
+		if err == nil && f.CompressedSize64 > 0 && off+int64(f.CompressedSize64) <= int64(len(b)) {
+			spans = append(spans, span{off, int64(f.CompressedSize64)})
+		}
+	}
+	if len(spans) == 0 {
+		return nil, ""
+	}
+	sp := spans[sel%len(spans)]
+	at := sp.off + int64(pos)%sp.n
+	out := append([]byte{}, b...)
+	switch kind {
+	case 1:
+		out[at] ^= 1 << uint(pos%8)
+		return out, "S-flip-data"
+	case 2:
+		changed := false
+		for i := at; i < at+8 && i < sp.off+sp.n; i++ {
+			if out[i] != 0 {
+				changed = true
+			}
+			out[i] = 0
+		}
+		if !changed {
+			return nil, ""
+		}
+		return out, "S-zero-data"
+	default: // misdirected write: eight bytes from elsewhere in the file land here
+		src := (int64(pos) * 7919) % int64(len(b)-8)
+		if len(b) < 16 || bytes.Equal(b[src:src+8], b[at:minI64(at+8, sp.off+sp.n)]) {
+			return nil, ""
+		}
+		copy(out[at:minI64(at+8, sp.off+sp.n)], b[src:src+8])
+		return out, "S-misdirected-data"
+	}
+}
+
+func minI64(a, b int64) int64 {
+	if a < b {
+		return a
+	}
+	return b
+}
+
+// normSigPart keeps the part name and the kind of difference of a package diff signature (paths inside differ per case).
+func normSigPart(sg string) string {
+	if i := strings.Index(sg, ":"); i > 0 {
+		return sg[:i] + ":other-content"
+	}
+	return sg
 }
 
 func (c03) Witnesses() []*sim.Case { return c03Witnesses() }
